@@ -40,6 +40,15 @@ SPECS = [
     "swarm_listen_loop=p2p/net/swarm/swarm_listen.go:Swarm.AddListenAddr#go0",
     "swarm_listen_conn=p2p/net/swarm/swarm_listen.go:Swarm.AddListenAddr#go1",
     "swarm_dialaddr=p2p/net/swarm/swarm_dial.go:Swarm.dialAddr",
+    "identify_conn=p2p/transport/tcpreuse/demultiplex.go:identifyConnType",
+    "tcpreuse_run=p2p/transport/tcpreuse/listener.go:multiplexedListener.run",
+    "tcpreuse_go=p2p/transport/tcpreuse/listener.go:multiplexedListener.run#go0",
+    "wt_dial=p2p/transport/webtransport/transport.go:transport.Dial",
+    "wt_dial_scope=p2p/transport/webtransport/transport.go:transport.dialWithScope",
+    "wt_http=p2p/transport/webtransport/listener.go:listener.httpHandler",
+    "wt_http_scope=p2p/transport/webtransport/listener.go:listener.httpHandlerWithConnScope",
+    "relay_dial=p2p/protocol/circuitv2/client/transport.go:Client.Dial",
+    "relay_dial_up=p2p/protocol/circuitv2/client/transport.go:Client.dialAndUpgrade",
 ]
 
 
